@@ -18,6 +18,7 @@ Interfaces: Use enum values instead of string literals throughout codebase
 Implementation: Standard Python enums with string values for compatibility
 """
 
+import re
 from enum import Enum
 
 
@@ -53,3 +54,19 @@ HEADER_SCAN_LINES: int = 10
 
 # Maximum depth for attribute chain traversal (e.g., obj.attr.attr2.attr3)
 MAX_ATTRIBUTE_CHAIN_DEPTH: int = 3
+
+
+_LINE_END = re.compile(r"\r\n|\n|\r")
+
+
+def split_lines(text: str) -> list[str]:
+    """Split source text into lines the way parsers and editors number them.
+
+    Only LF, CRLF and CR end a line. str.splitlines() also breaks at form feed, vertical
+    tab, FS/GS/RS, NEL and U+2028/U+2029, which shifts every later line number away from
+    the one ast / tree-sitter (and the violation) carries.
+    """
+    lines = _LINE_END.split(text)
+    if lines and lines[-1] == "":
+        lines.pop()
+    return lines
